@@ -64,7 +64,7 @@ TF_RULES = [
 ]
 
 HASH_BOUND = "update: per-call (buffer fill, length) shapes enumerated concretely, length <= 300 bytes; finalize: every buffer fill level (quick: boundary fills); chaining value, counters, data symbolic; histories unbounded"
-MODE_ASSUME = "compression entry points replaced by contract stubs (uninterpreted function + call log); their relation to the specification's compression function is proved (BLAKE, Threefish/UBI) or assumed (JH E8, Groestl P/Q) elsewhere"
+MODE_ASSUME = "compression entry points replaced by contract stubs (uninterpreted function + call log); their relation to the specification's compression function is proved by other harnesses of the same property (BLAKE round/wiring, Threefish/UBI step, JH F8 wiring + bit-slice == E8, Groestl P/Q round lemmas + wiring; the AESENCLAST instruction model is trusted)"
 
 
 def HASH_RULES():
